@@ -675,6 +675,15 @@ def rule_radix_positional_counts(col, facts):
                     clamp_ok = not later_defs and any(show(strip_casts(x)).startswith("(") and "Sub 1" in show(strip_casts(x)) for x in sub[2])
     col.check("UNIT-zeros", "radix::write_float_nonscientific:clamp-after-last-count-change", clamp_ok,
               "the leading-zero count subtracted from the digit count is not clamped to `count - 1` after the count's last change: when trimming removes more digits than there are leading zeros the subtraction underflows (debug panic for tiny values written positionally)", f.loc())
+    # GRD-window: the digits handed to truncate_and_round are capped (`min(fraction_cursor, start + N)`); the cap is
+    # on digits, and the string starts at the integer digit, so the leading zeros of a value below one must be added
+    # to it - otherwise a negative exponent break below -N cuts or drops the significant digits and a non-zero float
+    # is written as `0.0` (radix 7, break -400, 1.06e-228)
+    ends = [op_expr(f, a[2]) for bb, c, a, d, t in f.calls() if callee_name(c) == WF + "radix::truncate_and_round" and len(a) > 2]
+    capped = [e for e in ends if any(last_seg(c[1]) == "min" for c in expr_calls(e))]
+    col.check("GRD-window", "radix::write_float_nonscientific:window-skips-leading-zeros",
+              bool(ends) and all(any(last_seg(c[1]) == "ltrim_char_count" for c in expr_calls(e)) for e in capped),
+              "the digit window ends at `%s`: leading zeros count against the cap, so a small value written positionally loses its digits (radix 7, negative break -400: 1.06e-228 -> `0.0`)" % (show(capped[0])[:100] if capped else "?"), f.loc())
     # MPT-point
     n = 0
     bad = 0
